@@ -45,7 +45,7 @@ Newer(o) == LET ref == IF cfg.gen /\ gen.present /\ gen.m > o.at THEN gen.m ELSE
 Class(o) == ":newer-source=" \o Newer(o) \o ":generates=" \o (IF ~cfg.gen THEN "na" ELSE IF gen.present THEN "present" ELSE "absent")
             \o (IF cfg.collide THEN ":colliding-names" ELSE "")
 
-ReadOnly == {"dry", "status", "list", "listjson", "summary", "drydir", "dryfailpre"}
+ReadOnly == {"dry", "status", "list", "listjson", "summary", "drydir", "dryfailpre", "dryforce"}
 RunModes == {"run", "other", "fail1", "fail2", "failpre", "depfail1", "cancelsib", "prompt", "kill1", "kill2"}
 
 WorldInit ==
